@@ -6,17 +6,30 @@ operation of the Go decoders (first-byte dispatch, type assertions on the generi
 branch of it, and the `norm` correspondence compares it with the real decoders on the malformed stream of the
 harness on every run — this part is carried by the correspondence, not by a theorem.
 
-Idempotence, proved for all inputs for the components that are not plain `encoding/json` struct handling:
+Idempotence for WHOLE DOCUMENTS of every kind (`encoding_is_idempotent`, from `Codec/Idem.lean`):
+
+    norm K j = ok j₁  →  Clean j₁  →  re-running the codec on j₁ (same recursion budget) = ok j₁
+
+where `Clean` is a decidable, kind-agnostic condition on the first output: no member with value `null`, no
+member name that is a case variant of a keyword (the property's own exception) or an upper-case `X-` spelling
+of the extension prefix, numbers exactly representable in a float64, `$ref`/`$schema` texts fixed under the
+URL printing model (C13's subject).  Side conditions on the REGENERATED tables are discharged by `decide`
+(`idem_tables_ok`).  Without `Clean` the statement is FALSE on the current tree (K-C07-1 below: the first
+output holds `"items": null`, which is exactly what `Clean` excludes).
+
+Idempotence of the components, without any hypothesis on the output:
 * free-form payloads (`default`, `example`, `enum`, extension values, unknown schema keywords): one decode+encode
   reaches a fixed point (`payload_idempotent`);
 * Go maps: printing and reading again gives the same map (`go_map_idempotent`);
 * `properties` / `patternProperties`: sorting the sorted member list changes nothing (`properties_idempotent`);
 * `StringOrArray`, `SchemaOrStringArray` (the non-schema arms).
-The full statement `norm K j = ok j₁ → norm K j₁ = ok j₁` is FALSE on the current tree: `items` holding a
-scalar is accepted, printed as `null`, and `null` then leaves the field empty (known finding K-C07-1); the
+The unconditional statement `norm K j = ok j₁ → norm K j₁ = ok j₁` is FALSE on the current tree: `items` holding
+a scalar is accepted, printed as `null`, and `null` then leaves the field empty (known finding K-C07-1); the
 mechanism is exhibited below (`items_scalar_not_fixed`).
 -/
 import SpecModel.Codec.SortLemmas
+import SpecModel.Codec.Idem
+import SpecModel.Props.C06
 
 namespace SpecModel.Props.C07
 open SpecModel SpecModel.Codec
@@ -89,5 +102,46 @@ zero value prints as `null`; a `null` member then leaves the pointer field nil, 
 theorem items_scalar_not_fixed (rec : Rec) :
     normSchemaOrArray rec (.bool true) = .ok .null ∧
     decodeField rec (.ptrNamed "SchemaOrArray") none .null = .ok none := ⟨rfl, rfl⟩
+
+/-! ### Whole documents -/
+
+/-- side conditions on the tables regenerated from /repo on this run: the C06 ones (names pairwise distinct
+inside and across the parts of every kind), every Schema field is `omitempty` (so that a `null` schema, printed
+as `{}`, reads back as `{}`), and no regular kind decodes a part it never encodes -/
+theorem idem_tables_ok : IdemTablesOK := ⟨C06.tables_ok, by decide, by decide⟩
+
+/-- **Normalisation is idempotent on clean outputs, for every kind and every input.** -/
+theorem encoding_is_idempotent (k : String) (j j₁ : Json) (h : norm k j = .ok j₁) (hc : Clean j₁) :
+    normF (fuelFor j) (.kind k) j₁ = .ok j₁ :=
+  normF_idem idem_tables_ok _ k j j₁ h hc
+
+/-- the same at any recursion budget: whatever budget produced `j₁`, that budget reproduces it -/
+theorem encoding_is_idempotent_at (fuel : Nat) (k : String) (j j₁ : Json)
+    (h : normF fuel (.kind k) j = .ok j₁) (hc : Clean j₁) : normF fuel (.kind k) j₁ = .ok j₁ :=
+  normF_idem idem_tables_ok fuel k j j₁ h hc
+
+/-! non-vacuity: a concrete document that is reordered by the first pass, whose output is `Clean` -/
+
+instance (k : String) : Decidable (NameOK k) := by unfold NameOK; exact inferInstance
+
+theorem refTextOK_of_ne {k : String} {v : Json} (h1 : k ≠ "$ref") (h2 : k ≠ "$schema") : RefTextOK k v := by
+  intro h; rcases h with h | h <;> contradiction
+
+example : norm "license" (.obj [("url", .str "u"), ("name", .str "MIT"), ("x-a", .num 1)])
+    = .ok (.obj [("name", .str "MIT"), ("url", .str "u"), ("x-a", .num 1)]) := by rfl
+
+set_option maxRecDepth 100000 in
+example : Clean (.obj [("name", .str "MIT"), ("url", .str "u"), ("x-a", .num 1)]) := by
+  simp only [Clean, CleanM]
+  exact ⟨by decide, by simp, refTextOK_of_ne (by decide) (by decide), trivial,
+    by decide, by simp, refTextOK_of_ne (by decide) (by decide), trivial,
+    by decide, by simp, refTextOK_of_ne (by decide) (by decide), by decide, trivial⟩
+
+/-- `Clean` is not trivially true: the output behind K-C07-1 is rejected, and so is a case variant of a keyword -/
+example : ¬ Clean (.obj [("items", .null)]) := by simp [Clean, CleanM]
+set_option maxRecDepth 100000 in
+example : ¬ NameOK "Title" := by decide
+set_option maxRecDepth 100000 in
+example : ¬ NameOK "X-internal" := by decide
 
 end SpecModel.Props.C07
